@@ -59,7 +59,9 @@ type concWorld struct {
 	everParked int
 	neverReply bool
 	didSuspend bool
-	inShutdown string
+	// Resize requests come with a real change of the terminal's size
+	sizeChanges bool
+	inShutdown  string
 }
 
 type posterPlan struct {
@@ -153,6 +155,7 @@ func (w *concWorld) Build(t *simrt.Tape, spec RunSpec) {
 		w.suspendAfter = t.Draw(12)
 	}
 	w.closeEarly = t.Draw(4) == 0
+	w.sizeChanges = t.Draw(2) == 0 && !w.caps.InBandResize && !w.lin
 	w.preempt = []int{0, 0, 200, 50, 20}[t.Draw(5)]
 	w.frames = 1 + t.Draw(4)
 }
@@ -215,6 +218,13 @@ func (w *concWorld) poster(i int) {
 			w.sent[i] = append(w.sent[i], postRec{seq: k, kind: 2, call: call, ret: w.s.Steps})
 			w.res.Fault("syncfunc")
 		case 3:
+			if w.sizeChanges {
+				// the terminal really changes size; the application
+				// learns it through the manual trigger
+				r, c := 2+w.s.Tape.Draw(8), 4+w.s.Tape.Draw(24)
+				w.env.term.Resize(r, c)
+				w.res.Fault("terminal-size-change")
+			}
 			w.vx.Resize()
 			w.res.Fault("resize-request")
 		}
@@ -292,7 +302,12 @@ func (w *concWorld) querier(kind int) {
 }
 
 func (w *concWorld) user() {
-	keys := []string{"a", "\x1b", "\x1b[A", "\x1b", "b", "\x1b[<0;1;1M", "\x1ba", "\x1b"}
+	// keys, lone ESC bytes, mouse reports, and reports nobody asked for
+	// (a terminal may send size, position, colour and attribute reports at
+	// any time; twice in a row included)
+	keys := []string{"a", "\x1b", "\x1b[A", "\x1b", "b", "\x1b[<0;1;1M", "\x1ba", "\x1b",
+		"\x1b[8;6;20t", "\x1b[8;6;20t\x1b[8;6;20t", "\x1b[4;96;160t\x1b[4;96;160t", "\x1b[1;1R\x1b[1;1R", "\x1b]11;rgb:0000/0000/0000\x1b\\\x1b]11;rgb:0000/0000/0000\x1b\\",
+		"\x1b]10;rgb:ffff/ffff/ffff\x07\x1b]10;rgb:ffff/ffff/ffff\x07", "\x1b]4;3;rgb:8080/8080/0000\x07\x1b]4;3;rgb:8080/8080/0000\x07", "\x1b[?62;4c"}
 	for i := 0; i < 16 && !w.closing; i++ {
 		gaps := []int64{0, 1000, 9000, 10000, 11000, 20000}
 		simrt.Sleep(time.Duration(gaps[w.s.Tape.Draw(len(gaps))]) * time.Microsecond)
@@ -395,6 +410,20 @@ func (w *concWorld) main() {
 			w.suspended = false
 			simrt.SyncPoint(w.env)
 			simrt.Notify(w)
+		}
+	}
+	// a requested resize is never lost: once the posters are done a Render
+	// brings the application's idea of the size in line with the terminal
+	if w.sizeChanges && !w.closeEarly && w.postersLeft == 0 && !w.suspended {
+		for i := 0; i < 3; i++ {
+			vx.Render()
+			for w.pollOnce(5*time.Millisecond, &events) {
+			}
+		}
+		w.env.quiesce()
+		cols, rows := vx.Window().Size()
+		if rows != w.env.term.Rows || cols != w.env.term.Cols {
+			w.res.Violate("resize-lost", "vaxis.Render", "the terminal is %dx%d (rows x cols) since the last Resize() request was made; after three further Render calls the application's window is still %dx%d\ncase: %s", w.env.term.Rows, w.env.term.Cols, rows, cols, toJSON(w.Describe()))
 		}
 	}
 	w.closing = true
